@@ -732,6 +732,10 @@ func registerBig(e *Engine) {
 	ic["(*math/big.Float).Signbit"] = func(e *Engine, st *State, fr *Frame, in ssa.CallInstruction, a []Val) Val {
 		return FpPred("fp.isNegative", getF(e, st, a[0]).f)
 	}
+	ic["(*math/big.Float).Sign"] = func(e *Engine, st *State, fr *Frame, in ssa.CallInstruction, a []Val) Val {
+		f := getF(e, st, a[0]).f
+		return Ite(FpPred("fp.isZero", f), ConstBV(64, 0), Ite(FpPred("fp.isNegative", f), ConstBV(64, ^uint64(0)), ConstBV(64, 1)))
+	}
 	ic["(*math/big.Float).IsInf"] = func(e *Engine, st *State, fr *Frame, in ssa.CallInstruction, a []Val) Val {
 		return FpPred("fp.isInfinite", getF(e, st, a[0]).f)
 	}
